@@ -342,8 +342,9 @@ def gen_problem(rng, profile='general', force=None):
     """draw one problem + option set; every random choice from `rng` (a numpy Generator).
     profile: 'bounds' (C01: always bounds, never projections), 'budget' (C02: more averaging / small budgets / restarts),
              'general' (C03: everything), 'determ' (C04: deterministic objective, one sample per point).
-    force: None | 'trinc' (determ only: small ball constraints, the route to trust-region-increase exits) | 'restarts' | 'tiny' (budget below/around the initialisation cost) | 'noise' | 'zero_at' (residual zero at the
-           projected x0) | 'proj' | 'slow' : makes the named feature certain instead of random (ignored where not applicable)."""
+    force: None | 'restarts' | 'tiny' (budget below/around the initialisation cost) | 'noise' | 'zero_at' (residuals vanish at the
+           projected x0) | 'proj' | 'slow' | 'trinc' (profile 'determ': small ball constraints, no regulariser, mostly no restarts:
+           the route to trust-region-increase exits): makes the named feature certain instead of random."""
     P = profile
     F = force
     n = int(rng.integers(1, 6))
